@@ -42,7 +42,7 @@ info = {
     'C17-a': ("unreadable index read as 0", "an entry whose index cannot be read AND a request for register 0", "", None),
     'C17-b': ("shared hasher not reset on the error path", "success, failure after hashing, success", "", None),
     'C18-a': ("mask check skipped for a pinned field", "field pinned AND a forbidden bit equal to the pin", "(caught by C08's pinned x mask-bit cases)", "C08"),
-    'C18-b': ("chain memo overwritten before the outcome is known", "honest, forged, forged", "(caught by C02's extended shadow history)", "C02"),
+    'C18-b': ("chain memo overwritten before the outcome is known", "honest, forged, forged", "C18 runs each verify-fault case twice after its unbroken twin through one verification options value (C02's extended shadow history catches it too)", "C18"),
     'C19-a': ("verbosity-2 summary decodes SVNs before the quote is checked", "-verbosity >= 2 AND a proto / textproto quote with a short SVN field", "new class odd-message (8 malformed messages x proto / textproto x verbosity 0..3)", "C19"),
     'C19-b': ("retry stops when the same error text repeats", "error X, X again, success", "(caught by C20's k-failures-then-success cases, whose clause it is)", "C20"),
     'C20-a': ("success returns the remembered headers of a failed attempt", "failure with headers AND success with a nil header map", "successes without a header map after failures with headers", "C20"),
